@@ -4,17 +4,24 @@ import kcp_common as K
 META = {
     "enabled": True,
     "engine": "kcp",
-    "technique": "Coq invariant proof of the RTO clamp for all ack/timestamp sequences; clean-path exactly-once checked by simulation of the real cores (partial)",
-    "level_text": "Proved for every sequence of calls and inputs, including forged acknowledgement timestamps and arbitrary clock values: min RTO (30/100 ms) <= rx_rto <= 60 s, as long as the no-delay mode is not re-configured mid-connection; the clamp of one RTT sample is proved separately. The exactly-once half (clean FIFO path, 2D + peer interval < min RTO, reader keeps up) is PARTIAL: it is decided by a grid of deterministic clean-path simulations on the real cores under the fake clock (every sequence number must appear on the wire exactly once), replayed in the model; the whole-system timed induction is not mechanised.",
-    "level_note": K.TRUST + " Partial: 'every data segment is transmitted exactly once on a clean path' is established by simulation over a configuration grid, not by a theorem.",
+    "technique": "Coq invariant proof of the RTO clamp for all ack/timestamp sequences; sender-side exactly-once theorem under in-order, timely acknowledgements; clean-path simulation grid of the real cores",
+    "level_text": "Proved for every sequence of calls and inputs, including forged acknowledgement timestamps and arbitrary clock values: min RTO (30/100 ms) <= rx_rto <= 60 s, as long as the no-delay mode is not re-configured mid-connection; the clamp of one RTT sample is proved separately. Exactly-once, sender side (C18b.v): a flush retransmits an already transmitted segment ONLY on timeout, fast or early retransmission (c18_retransmit_causes); fastack counters grow only through ACKs for later numbers (c18_fastack_causes); a transmission arms resendts = ts + rto with rto >= min RTO, so no timeout fires within min RTO of it (c18_no_rto_before_minrto); and for every history satisfying (H1) acknowledgements arrive in order and (H2) every transmitted segment is acknowledged less than min RTO after its transmission - what a FIFO loss-free path with 2D + peer interval < min RTO delivers - every segment is put on the wire exactly once and xmit <= 1 in every state (c18_clean_sender). PARTIAL: that the two-endpoint clean path yields (H1) and (H2) is a timed whole-system induction that is not mechanised; it is decided by a grid of deterministic clean-path simulations on the real cores under the fake clock (every sequence number must appear exactly once), replayed in the model.",
+    "level_note": K.TRUST + " Partial: the step from the two-endpoint clean path to the hypotheses (H1), (H2) of c18_clean_sender is established by simulation over a configuration grid, not by a theorem.",
 }
 OBLIGATIONS = ["c18_rto_bounds", "c18_rto_max", "c18_nodelay_minrto", "c18_update_ack_clamped"]
 RELEVANT = {"rto", "srtt", "rttvar", "minrto", "sb"} | K.RESULTS | K.PANICS
 
 
+CLEAN_OBLIGATIONS = ["c18_retransmit_causes_seg", "c18_retransmit_causes", "c18_flush_wire", "c18_ackonly_retransmits_nothing",
+                     "c18_fastack_causes", "c18_in_order_ack_moves_no_counter", "c18_in_order_input", "c18_resendts_after_send",
+                     "c18_no_rto_before_minrto", "c18_clean_sender", "c18_clean_sender_always", "c18_clean_step",
+                     "c18_new_endpoint", "c18_clean_history_decide"]
+
+
 def run(ctx):
     K.core_check(ctx, "C18", "C18.v", OBLIGATIONS, RELEVANT,
                  "kcp.go vs coq/kcp/Kcp.v on clean-path simulations and forged-timestamp histories")
+    K.extra_statements(ctx, "kcp", "C18b.v", CLEAN_OBLIGATIONS)
     ctx.coverage["rule"] = ("clean-path grid: FIFO loss-free constant delay D in {0,1,3,8,20,30,44} ms, intervals {10,20,40}, nodelay, resend {0,1,2}, nc, 7 window pairs, bursts, both drivers, "
                             "clock started just before the 2^32 ms wrap, kept only when 2D + peer interval < min RTO and rcv_wnd >= min(snd_wnd, 32); plus lossy histories with forged timestamps; "
                             "non-trivial = clean-path run that satisfies the preconditions, or a history with forged/retransmitted segments")
